@@ -253,3 +253,133 @@ Example C02_end_to_end_scripts_nonvacuous :
   end.
 Proof. rewrite DaemonE2EEx.power_example. split; [right; right; left; reflexivity|reflexivity]. Qed.
 Print Assumptions C02_end_to_end_scripts.
+
+(* ------------------------------------------------------------------------------------------------------------------
+   THE CLIENT HALF OF A PASS NEVER ENDS A COMMAND (Proofs/DaemonE2ETerminal.v).  C02_end_to_end speaks about the terminal token a
+   client's stream gains in the CALLBACK half of a pass.  The other half - cli_post_poll: accept, read, write, _handle_input /
+   _parse_input for every buffered line, _destroy_client - is covered here, for EVERY state that satisfies the cross-layer
+   invariant (DPInv, NL: what every reachable state satisfies, C04_daemon_invariant) and EVERY answer of poll / read / write:
+
+   C02_client_half_keeps_commands: a client with a command in progress when the client half begins
+     - either is destroyed in it: exactly when poll reported POLLERR / POLLNVAL for its descriptor (ci_bad; client.c
+       cli_post_poll `if (revents & (POLLERR | POLLNVAL)) delete`).  Then NOTHING is written to it - no terminal line of the
+       command, ever - and no record carries its id afterwards; its queued actions stay (C11_vanish) and their completions find
+       no client (Daemon.route: find_cli = None; example below).  (End-of-file on its socket does NOT destroy it: client_quit is
+       set and the record stays until the command has ended.)
+     - or is still there afterwards with the SAME command record - same command word, targets, pending counter, error flag,
+       result list: cl_cmd = Some k0 - same id, same -x / telemetry flags, and its output has gained REFUSALS only: for every
+       further request line one of `208` (busy, no prompt) or, for a line of CP_LINEMAX bytes or more, `203` followed by the
+       prompt (no prompt once the client has quit).  Codes 208 and 203 only: never 102 / 210 / 103 / 211, never a 3xx line.
+   C02_creating_line_is_silent: the request line that CREATES a command writes nothing: error flag clear, pending counter = the
+     number of actions handed to dev_enqueue_actions = the ledger entry (enq, 0, 0) of C02_end_to_end; from the next line on
+     the lines of that client are refused (the per-line lemmas line_busy / hi_busy behind C02_client_half_keeps_commands).
+   C02_terminal_only_from_completions: every pass of every run from start-up, both halves composed: for every client that has a
+     POWER command in progress when the pass BEGINS (record x0, command k0), either it is destroyed by the client half as above
+     (nothing written, the id is gone when the pass ends) or when the pass ends its record is there (same id) and the tokens its
+     stream gained in the whole pass are `rf ++ new`: refusals from the client half, then what C02_end_to_end says of the
+     callback half -
+       the command is still in progress (same command word and result list): `new` holds informational lines only, so the pass
+         wrote NO terminal line of the command;
+       the command has ended - cl_cmd is None only in this case, and only the callback half can bring it about: `new` is
+         informational lines, then the ONE terminal line 102 / 210 decided as in C02_end_to_end, then the prompt; when the
+         callback half began not every action enqueued for the command had completed (ledger La = the ledger after the client
+         half: ok + fail < enq), when it ended every one had (ok + fail = enq), and the pass's event list holds a completion
+         event EvComplete for this client's id: the command disappears ONLY in a pass whose callback half delivered its last
+         completion.
+     A command is created by a request line of a client WITHOUT a command (silently: C02_creating_line_is_silent), so it is in
+     progress at the beginning of every later pass up to the one that ends it: by the two cases, in no pass between its creation
+     and that pass does the stream gain 102 / 210, and the replies to lines the client sends meanwhile are 208 / 203 only. *)
+From PM Require Import Proofs.DaemonFrame Proofs.DaemonE2ETerminal.
+From PM Require Proofs.DaemonE2ETerminalEx.
+Theorem C02_client_half_keeps_commands : forall expand_str ranged_sorted ranged_plain sorted compress st r sta e1,
+  DPInv compress st -> NL st -> 1 <= dm_seq st < INT_MAX ->
+  cli_post_poll expand_str ranged_sorted ranged_plain sorted st r = Ok (sta, e1) ->
+  forall p x0 k0, nth_error (dm_clients st) p = Some x0 -> cl_cmd (dc x0) = Some k0 ->
+    (exists x rf, In x (dm_clients sta) /\ BRel x0 k0 x rf) \/
+    (ci_bad (nth p (r_cli r) cin0) = true /\ ~ In (cid x0) (ids sta)).
+Proof. exact cli_post_poll_busy. Qed.
+(* BRel and refusals, spelled out *)
+Theorem C02_refusals_spelled_out :
+  (forall x0 k0 x rf, BRel x0 k0 x rf <->
+     cid x = cid x0 /\ cl_cmd (dc x) = Some k0 /\ cl_exp (dc x) = cl_exp (dc x0) /\ cl_tele (dc x) = cl_tele (dc x0) /\
+     refusals rf /\ cl_out (dc x) = cl_out (dc x0) ++ render rf /\ (forall toks0, cli_okT x0 toks0 -> cli_okT x (toks0 ++ rf))) /\
+  (forall l, refusals l <-> exists gs, l = concat gs /\ Forall (fun d => d = [busy_tok] \/ d = [long_tok; TPrompt] \/ d = [long_tok]) gs) /\
+  render [busy_tok] = CP_ERR_CLIBUSY /\ render [long_tok] = CP_ERR_TOOLONG /\
+  (forall l, refusals l -> forall c p, In (TLine c p) l -> c = 208%N \/ c = 203%N) /\
+  (forall l, Forall info_tok l -> forall c p, In (TLine c p) l -> ~ (c = 102 \/ c = 210 \/ c = 103 \/ c = 211)%N).
+Proof.
+  exact (conj (fun _ _ _ _ => iff_refl _) (conj (fun _ => iff_refl _) (conj (eq_sym (proj1 c_clibusy)) (conj (eq_sym (proj1 c_toolong))
+        (conj refusals_codes infos_not_terminal))))).
+Qed.
+Theorem C02_creating_line_is_silent : forall expand_str ranged_sorted ranged_plain sorted st i acc st1 a1 x0 L,
+  handle_input expand_str ranged_sorted ranged_plain sorted 1 st i acc = Ok (st1, a1) ->
+  nth_error (dm_clients st) i = Some x0 -> cl_cmd (dc x0) = None ->
+  forall x k, nth_error (dm_clients st1) i = Some x -> cl_cmd (dc x) = Some k ->
+    cid x = cid x0 /\ cl_out (dc x) = cl_out (dc x0) /\ k_error k = false /\ 0 < k_pending k /\ k_args k = length (dm_store st) /\
+    line_led expand_str ranged_sorted ranged_plain sorted st i L (cid x0) = mkL (k_pending k) 0 0.
+Proof. exact (fun es rs rp so => line_creates es rs rp so (fun _ _ => None)). Qed.
+(* ... and from ANY state (no invariant needed), for any number of further lines of _handle_input: every command in progress stays as it
+   is, the outputs gain refusals only - in particular from the state right after the creating line to the end of that _handle_input *)
+Theorem C02_handle_input_keeps_commands : forall expand_str ranged_sorted ranged_plain sorted fuel st i acc st' a',
+  handle_input expand_str ranged_sorted ranged_plain sorted fuel st i acc = Ok (st', a') ->
+  forall p x0 k0, nth_error (dm_clients st) p = Some x0 -> cl_cmd (dc x0) = Some k0 ->
+    exists x rf, nth_error (dm_clients st') p = Some x /\ BRel x0 k0 x rf.
+Proof. exact hi_busy. Qed.
+Theorem C02_terminal_only_from_completions : forall expand_str ranged_sorted ranged_plain sorted rmatch compress short_circuit st0 now plans rs r,
+  boot compress st0 -> Z.of_nat (length rs) < INT_MAX - 1 ->
+  exists st1 o1, dinit st0 now plans = Ok (st1, o1) /\
+  match drun expand_str ranged_sorted ranged_plain sorted rmatch compress short_circuit st1 rs [] with
+  | Ok (st, _) =>
+    let L := drun_led expand_str ranged_sorted ranged_plain sorted rmatch compress short_circuit st1 rs lzero in
+    match cli_post_poll expand_str ranged_sorted ranged_plain sorted st r with
+    | Ok (sta, e1) =>
+      match dev_loop ranged_sorted rmatch compress short_circuit (length (dm_devs sta)) (r_now r) sta O (r_dev r) None [] with
+      | Ok (stb, tmo, e2) =>
+        dstep expand_str ranged_sorted ranged_plain sorted rmatch compress short_circuit st r = Ok (stb, mkDout (e1 ++ e2) tmo) /\
+        let La := cpp_led expand_str ranged_sorted ranged_plain sorted st r L in
+        let Lb := dstep_led expand_str ranged_sorted ranged_plain sorted rmatch compress short_circuit st r L in
+        forall p x0 k0, nth_error (dm_clients st) p = Some x0 -> cl_cmd (dc x0) = Some k0 -> existsb (Z.eqb (k_com k0)) power_coms = true ->
+          (ci_bad (nth p (r_cli r) cin0) = true /\ ~ In (cid x0) (ids sta) /\ ~ In (cid x0) (ids stb)) \/
+          exists pa xa rf, nth_error (dm_clients sta) pa = Some xa /\ BRel x0 k0 xa rf /\
+            exists xb new, nth_error (dm_clients stb) pa = Some xb /\ cid xb = cid x0 /\
+              cl_out (dc xb) = cl_out (dc x0) ++ render (rf ++ new) /\
+              (forall toks0, cli_okT x0 toks0 -> cli_okT xb (toks0 ++ rf ++ new)) /\
+              match cl_cmd (dc xb) with
+              | Some k => Forall info_tok new /\ k_com k = k_com k0 /\ k_args k = k_args k0
+              | None =>
+                  (let r := Lb (cid xa) in let al := nth (k_args k0) (dm_store stb) [] in
+                   exists infos c p, new = infos ++ [TLine c p; TPrompt] /\ Forall info_tok infos /\ (c = 102%N \/ c = 210%N) /\
+                     l_ok r + l_fail r = l_enq r /\ 0 < l_enq r /\ 0 <= l_ok r /\ 0 <= l_fail r /\
+                     (c = 102%N <-> l_fail r = 0 /\ l_ok r = l_enq r /\ no_unknown_result al = true) /\
+                     (c = 210%N <-> 0 < l_fail r \/ no_unknown_result al = false)) /\
+                  l_ok (La (cid x0)) + l_fail (La (cid x0)) < l_enq (La (cid x0)) /\
+                  exists j err msg, In (SysDev j (EvComplete (cid x0) err msg)) e2
+              end
+      | _ => False
+      end
+    | _ => False
+    end
+  | _ => False
+  end.
+Proof. exact c02_terminal_only_from_completions. Qed.
+(* non-vacuity (Proofs/DaemonE2ETerminalEx.v; evaluated): the daemon of C02_end_to_end_nonvacuous; client 1 sends `on n1` and, while the
+   command is in progress, `status n1`: the client half of the third pass answers 208 (= CP_ERR_CLIBUSY, no prompt), the command
+   stays; the fifth pass delivers EvComplete 1 ACT_ESUCCESS and the stream gains `102 Command completed successfully` and the prompt.
+   When poll reports POLLERR for the client in the third pass instead, the record is destroyed with the command in progress,
+   nothing is written, and the completion event of the fifth pass finds no client *)
+Example C02_terminal_only_from_completions_nonvacuous :
+  (DaemonE2ETerminalEx.pass_view (firstn 3 DaemonE2ETerminalEx.busy_rounds) =
+     Some ([(1, Some PM_POWER_ON, DaemonE2EEx.banner)], [(1, Some PM_POWER_ON, DaemonE2EEx.banner ++ render [busy_tok])],
+           [(1, Some PM_POWER_ON, DaemonE2EEx.banner ++ render [busy_tok])], []) /\
+   DaemonE2ETerminalEx.pass_view DaemonE2ETerminalEx.busy_rounds =
+     Some ([(1, Some PM_POWER_ON, DaemonE2EEx.banner ++ render [busy_tok])], [(1, Some PM_POWER_ON, DaemonE2EEx.banner ++ render [busy_tok])],
+           [(1, None, DaemonE2EEx.banner ++ render [busy_tok] ++ render [TLine 102 (bslit "Command completed successfully"); TPrompt])],
+           [(1, ACT_ESUCCESS)]) /\
+   render [busy_tok] = CP_ERR_CLIBUSY) /\
+  (DaemonE2ETerminalEx.pass_view (firstn 3 DaemonE2ETerminalEx.vanish_rounds) = Some ([(1, Some PM_POWER_ON, DaemonE2EEx.banner)], [], [], []) /\
+   DaemonE2ETerminalEx.pass_view DaemonE2ETerminalEx.vanish_rounds = Some ([], [], [], [(1, ACT_ESUCCESS)])).
+Proof. exact (conj DaemonE2ETerminalEx.busy_example DaemonE2ETerminalEx.vanish_example). Qed.
+Print Assumptions C02_client_half_keeps_commands.
+Print Assumptions C02_creating_line_is_silent.
+Print Assumptions C02_handle_input_keeps_commands.
+Print Assumptions C02_terminal_only_from_completions.
